@@ -213,16 +213,17 @@ func (s *server) OnOpen(c gnet.Conn) ([]byte, gnet.Action) {
 
 func (s *server) OnTraffic(c gnet.Conn) gnet.Action {
 	defer s.enter(c)()
+	k := key(c)
+	s.log("traffic", k) // logged on entry: a failing Write below closes the connection (OnClose) inside this callback
 	b, _ := c.Next(-1)
-	_, _ = c.Write(b)
-	s.log("traffic", key(c))
-	// C17 runtime half: the address reported now is the one reported at OnOpen
 	s.mu.Lock()
-	want := s.remote[key(c)]
+	want := s.remote[k]
 	s.mu.Unlock()
+	// C17 runtime half: the address reported now is the one reported at OnOpen
 	if c.RemoteAddr() != nil && want != "" && c.RemoteAddr().String() != want {
 		util.Fail(fmt.Sprintf("C17: RemoteAddr changed from %s to %s during the life of a connection", want, c.RemoteAddr()))
 	}
+	_, _ = c.Write(b)
 	if s.sc.source == "traffic" && atomic.CompareAndSwapInt32(&s.trigger, 0, 1) {
 		return gnet.Shutdown
 	}
